@@ -1,19 +1,117 @@
 import SpVerif.Model.PackFS
+import Mathlib.Data.List.Perm.Basic
+/-!
+# C10 — pack_partitions_to_parquet leaves a complete, clean, re-readable dataset
+
+Theorem about the renumbering step (the only place where a part file is moved onto another name): for every pattern of
+empty output partitions the moves, executed in the coded order, never overwrite a live file and leave exactly the non-empty
+parts, in their Hilbert order, numbered 0..m-1.  The rest of the protocol (directory layout, temporary directories,
+overwrite) is checked on the real filesystem by the correspondence; the Lean model does not cover it yet (partial).
+-/
 namespace SpVerif
 open PackFS
+
+/-- strictly increasing indices, all at least `j` -/
+def IncFrom : Nat → List Nat → Prop
+  | _, [] => True
+  | j, i :: rest => j ≤ i ∧ IncFrom (i + 1) rest
+
+theorem incFrom_mono {j j' : Nat} {l : List Nat} (h : IncFrom j l) (hj : j' ≤ j) : IncFrom j' l := by
+  cases l with
+  | nil => trivial
+  | cons i rest => exact ⟨by have := h.1; omega, h.2⟩
+
+theorem incFrom_mem {j : Nat} {l : List Nat} (h : IncFrom j l) : ∀ x ∈ l, j ≤ x := by
+  induction l generalizing j with
+  | nil => intro x hx; cases hx
+  | cons i rest ih =>
+    intro x hx
+    simp only [List.mem_cons] at hx
+    rcases hx with rfl | hx
+    · exact h.1
+    · have := ih h.2 x hx; have := h.1; omega
+
+theorem applyMove_perm {s t : St} (h : s.Perm t) (m : Nat × Nat) : (applyMove s m).Perm (applyMove t m) := by
+  unfold applyMove
+  have hany : s.any (fun e => e.1 == m.1) = t.any (fun e => e.1 == m.1) := by
+    rw [Bool.eq_iff_iff]
+    simp only [List.any_eq_true]
+    constructor
+    · rintro ⟨x, hx, hp⟩; exact ⟨x, h.subset hx, hp⟩
+    · rintro ⟨x, hx, hp⟩; exact ⟨x, h.symm.subset hx, hp⟩
+  rw [hany]
+  split
+  · exact List.Perm.append (List.Perm.map _ (List.Perm.filter _ h)) (List.Perm.filter _ h)
+  · exact h
+
+/-- the loop invariant: with the first `j` outputs in place (`done`, all keys `< j`) and the remaining non-empty parts still
+under their own index, the rest of the loop puts them at `j, j+1, …` without touching `done` -/
+theorem compactFrom_spec (j : Nat) (rest : List Nat) (done s : St) (hinc : IncFrom j rest)
+    (hdone : ∀ e ∈ done, e.1 < j) (hs : s.Perm (done ++ rest.map (fun i => (i, i)))) :
+    (compactFrom j rest s).Perm (done ++ (List.range' j rest.length).zip rest) := by
+  induction rest generalizing j done s with
+  | nil => simpa [compactFrom] using hs
+  | cons i rest ih =>
+    obtain ⟨hji, hrest⟩ := hinc
+    simp only [compactFrom]
+    have hgt : ∀ x ∈ rest, i + 1 ≤ x := incFrom_mem hrest
+    -- the state after this iteration is `done ++ [(j, i)]` followed by the untouched rest
+    have key : (if (i != j) = true then applyMove s (i, j) else s).Perm ((done ++ [(j, i)]) ++ rest.map (fun i => (i, i))) := by
+      by_cases hij : i = j
+      · subst hij
+        simp only [bne_self_eq_false, Bool.false_eq_true, if_false]
+        refine hs.trans ?_
+        simp [List.append_assoc]
+      · have hne : (i != j) = true := by simpa using hij
+        simp only [hne, if_true]
+        refine (applyMove_perm hs (i, j)).trans ?_
+        unfold applyMove
+        have hany : (done ++ List.map (fun i => (i, i)) (i :: rest)).any (fun e => e.1 == i) = true := by
+          simp [List.any_append]
+        simp only [hany, if_true]
+        have f1 : (done ++ List.map (fun i => (i, i)) (i :: rest)).filter (fun e => e.1 == i) = [(i, i)] := by
+          simp only [List.filter_append, List.map_cons, List.filter_cons, beq_self_eq_true, if_true]
+          have d0 : done.filter (fun e => e.1 == i) = [] := by
+            rw [List.filter_eq_nil_iff]; intro e he; have := hdone e he; simp; omega
+          have r0 : (rest.map (fun i => (i, i))).filter (fun e => e.1 == i) = [] := by
+            rw [List.filter_eq_nil_iff]; intro e he
+            simp only [List.mem_map] at he
+            obtain ⟨x, hx, rfl⟩ := he
+            have := hgt x hx; simp; omega
+          rw [d0, r0]; rfl
+        have f2 : (done ++ List.map (fun i => (i, i)) (i :: rest)).filter (fun e => e.1 != i && e.1 != j) = done ++ rest.map (fun i => (i, i)) := by
+          simp only [List.filter_append, List.map_cons, List.filter_cons, bne_self_eq_false, Bool.false_and, Bool.false_eq_true, if_false]
+          congr 1
+          · rw [List.filter_eq_self]; intro e he; have := hdone e he; simp; omega
+          · rw [List.filter_eq_self]; intro e he
+            simp only [List.mem_map] at he
+            obtain ⟨x, hx, rfl⟩ := he
+            have := hgt x hx; simp; omega
+        rw [f1, f2]
+        simp only [List.map_cons, List.map_nil, List.singleton_append, List.append_assoc]
+        exact (List.perm_middle (a := (j, i)) (l₁ := done) (l₂ := rest.map (fun i => (i, i)))).symm
+    have := ih (j + 1) (done ++ [(j, i)]) _ (incFrom_mono hrest (by omega))
+      (by intro e he; simp only [List.mem_append, List.mem_singleton] at he; rcases he with he | rfl; have := hdone e he; omega; simp) key
+    refine this.trans ?_
+    simp [List.range'_succ, List.append_assoc]
+
+/-- **renumbering is safe and order preserving**: for every strictly increasing list of non-empty output partitions the final
+dataset holds exactly their contents under the indices `0 … m-1`, in the same order; nothing is overwritten or lost -/
+theorem C10_contiguous (nonEmpty : List Nat) (h : IncFrom 0 nonEmpty) :
+    (compact nonEmpty).Perm ((List.range nonEmpty.length).zip nonEmpty) := by
+  have := compactFrom_spec 0 nonEmpty [] (initial nonEmpty) h (by simp) (by simp [initial])
+  simpa [compact, List.range_eq_range'] using this
+
 /-- when no output partition is empty nothing is moved -/
 theorem C10_no_empty_no_moves (k : Nat) : moves (List.range k) = [] := by
   unfold moves
-  induction k with
-  | zero => rfl
-  | succ k ih =>
-    simp only [List.length_range] at *
-    rw [List.filter_eq_nil_iff]
-    intro p hp
-    have := List.of_mem_zip hp
-    simp only [List.mem_range] at this
-    have h2 : p.1 = p.2 := by
-      obtain ⟨i, hi, rfl⟩ := List.mem_iff_getElem.mp hp
-      simp [List.getElem_zip]
-    simp [h2]
+  rw [List.filter_eq_nil_iff]
+  intro p hp
+  obtain ⟨i, hi, rfl⟩ := List.mem_iff_getElem.mp hp
+  simp [List.getElem_zip]
+
+/-! non-vacuity: output partitions 1, 2 and 5 of 0..7 are empty -/
+example : IncFrom 0 [0, 3, 4, 6, 7] ∧ compact [0, 3, 4, 6, 7] = [(4, 7), (3, 6), (2, 4), (1, 3), (0, 0)] := by
+  refine ⟨by simp [IncFrom], by decide⟩
+
 end SpVerif
